@@ -795,10 +795,10 @@ def check_assembly(ctx, rule="R6-assembly", only=None):
     repo = ctx.repo
     fkey = AN + ".compute"; fn = repo.get(fkey); ctx.analysed(fkey, AN + "._lpsd_core")
     where = repo.where(fkey, fn)
-    for iscsd in (True, False):
+    for iscsd, order in [(c_, o_) for o_ in (0, -1, 1, 2) for c_ in (True, False)]:
         R = Run(repo, "numba")
         plan = plan_obj()
-        me = analyzer_obj(0, iscsd, True, plan)
+        me = analyzer_obj(order, iscsd, True, plan)
         old = R._call
 
         def call2(I_, f, args, kwargs, st, node, old=old, plan=plan):
@@ -810,7 +810,7 @@ def check_assembly(ctx, rule="R6-assembly", only=None):
             R.I.call_func(Func(fkey, fn), [me], {}, St(), None)
         except Unknown as ex:
             ctx.unknown(rule, fkey, str(ex), where); continue
-        mode = "cross" if iscsd else "auto"
+        mode = ("cross" if iscsd else "auto") + ("" if order == 0 else f",order={order}")
         if len(R.made) != 1 or not R.made[0][1] or not isinstance(R.made[0][1][0], DictVal):
             ctx.unknown(rule, f"{fkey}[{mode}]", "SpectrumResult construction not recognised", where); continue
         d = R.made[0][1][0].d
@@ -1182,7 +1182,7 @@ def check_result_fields_aligned(ctx, rule="R-result-fields-aligned"):
     import itertools
     n_ok = 0
     for bits in itertools.product((True, False), repeat=len(conds)):
-        maps = {}
+        maps = {}; modified = {}
         for k in RESULT_FIELDS:
             v = d.d.get(k)
             for c_, b_ in zip(conds, bits): v = pv_restrict(v, c_, b_) if isinstance(v, PV) else v
@@ -1190,7 +1190,16 @@ def check_result_fields_aligned(ctx, rule="R-result-fields-aligned"):
             if A is None or A.ndim != 1:
                 maps[k] = None; continue
             jv = A.axes[0][0]
+            if isinstance(A.body, PV):
+                # an element-wise selection (np.where / masked store): every alternative must still be the constructor's own element
+                for lp_, leaf in pv_leaves(A.body):
+                    lx = to_x(leaf) if not isinstance(leaf, PV) and not is_opaque(leaf) and leaf is not None else None
+                    same_ = lx is not None and len(lx.m) == 1 and not lx.p and lx.c == C(1) and list(lx.m)[0].tag == "idx" and list(lx.m)[0].name == "in." + k
+                    if lx is not None and not same_:
+                        modified.setdefault(k, f"on [{path_text(lp_)}] the stored element is {lx!r}"[:200])
             bx = to_x(A.body) if not isinstance(A.body, PV) and not is_opaque(A.body) else None
+            if bx is not None and not (len(bx.m) == 1 and not bx.p and bx.c == C(1) and list(bx.m)[0].tag == "idx" and list(bx.m)[0].name == "in." + k):
+                modified.setdefault(k, f"the stored element is {bx!r}"[:200])
             ix = None
             if bx is not None and len(bx.m) == 1 and not bx.p and bx.c == C(1):
                 (at, e), = bx.m.items()
@@ -1198,6 +1207,11 @@ def check_result_fields_aligned(ctx, rule="R-result-fields-aligned"):
             maps[k] = ix
         path = " & ".join((c_.text if b_ else f"not({c_.text})") for c_, b_ in zip(conds, bits)) or "always"
         unknown = [k for k, m_ in maps.items() if m_ is None]
+        if modified:
+            k0 = sorted(modified)[0]
+            ctx.violated(rule, f"{key}[{path[:80]}][{k0}]", f"the constructor does not store the statistic {k0} it was given (shape / dtype normalisation aside): {modified[k0]} - every derived "
+                         "quantity and error bar is a function of the stored statistics", where)
+            continue
         if unknown:
             ctx.unknown(rule, f"{key}[{path[:80]}]", f"stored field {unknown[0]} is not an element-wise view of the constructor's array: {d.d.get(unknown[0])!r}"[:300], where); continue
         ref = maps["XX"]
@@ -1212,7 +1226,7 @@ def check_result_fields_aligned(ctx, rule="R-result-fields-aligned"):
 
 
 # ---------------------------------------------------------------------------- the one-call convenience functions forward their arguments unchanged
-def check_wrappers(ctx, rule="R12-convenience-functions-forward"):
+def check_wrappers(ctx, rule="R12-convenience-functions-forward", probes=("olap", "psll", "win", "order")):
     """lpsd / compute_spectrum / compute_single_bin (module level) build SpectrumAnalyzer(data, fs, **kwargs) from their own arguments, call compute()
     resp. compute_single_bin(freq=freq, fres=fres, L=L) on it and return that result."""
     repo = ctx.repo
@@ -1236,9 +1250,9 @@ def check_wrappers(ctx, rule="R12-convenience-functions-forward"):
                 return o
             return NotImplemented
         I.hooks["construct"] = construct
-        data = ArrParam("data"); kw = DictVal({"olap": X.var("kw.olap")}, open_=True)
+        data = ArrParam("data"); kw = DictVal({p_: X.var("kw." + p_) for p_ in probes}, open_=True)
         args = [data, X.var("fs")] + ([X.var("freq")] if extra else [])
-        kws = {"**": kw, "olap": X.var("kw.olap")}
+        kws = {"**": kw}; kws.update({p_: X.var("kw." + p_) for p_ in probes})
         if extra: kws.update({"fres": X.var("fres"), "L": X.var("Lreq")})
         try:
             r = I.call_func(Func(key, fn), args, kws, St(), None)
@@ -1252,7 +1266,9 @@ def check_wrappers(ctx, rule="R12-convenience-functions-forward"):
             d_ = a[0] if a else k.get("data"); f_ = a[1] if len(a) > 1 else k.get("fs")
             if d_ is not data: bad = f"the analyzer is built from {d_!r}, not from the data argument"
             elif not (isinstance(f_, X) and f_.eq(X.var("fs"))): bad = f"the analyzer is built with fs = {f_!r}, not the fs argument"
-            elif not (isinstance(k.get("olap"), X) and k["olap"].eq(X.var("kw.olap"))): bad = "the keyword options are not forwarded to the analyzer"
+            else:
+                lost = [p_ for p_ in probes if not (isinstance(k.get(p_), X) and k[p_].eq(X.var("kw." + p_)))]
+                if lost: bad = f"the keyword option(s) {', '.join(lost)} are not forwarded to the analyzer (the analysis silently runs with the defaults)"
         if bad is None:
             if len(called) != 1 or called[0][0] != meth: bad = f"calls {[c[0] for c in called]} on the analyzer, expected {meth}()"
             else:
